@@ -354,18 +354,23 @@ mutual
     | _, _ => .error .badValue
 end
 
-/-- number of constructors of a type expression (for the fuel) -/
-def tySize : Ty → Nat
-  | .slice e => tySize e + 1
-  | .arr _ e => tySize e + 1
-  | .ptr e => tySize e + 1
-  | .struct fs => fieldsSize fs + 1
-  | _ => 1
-where fieldsSize : List (Tag × Ty) → Nat
-  | [] => 0
-  | (_, t) :: fs => tySize t + 1 + fieldsSize fs
+mutual
+  /-- weight of a type expression for the fuel: recursion depth per input byte.  `interface{}` is
+      heavier because every nesting level of the *data* costs three calls. -/
+  def tySize : Ty → Nat
+    | .any => 5
+    | .slice e => tySize e + 1
+    | .arr _ e => tySize e + 1
+    | .ptr e => tySize e + 1
+    | .struct fs => fieldsSize fs + 1
+    | _ => 1
+  def fieldsSize : List (Tag × Ty) → Nat
+    | [] => 0
+    | (_, t) :: fs => tySize t + 2 + fieldsSize fs
+end
 
-def typedFuel (ty : Ty) (b : Bytes) : Nat := (tySize ty + 3) * (b.length + 2)
+/-- Fuel handed to `decT` by `decodeTy`; `Proofs/RLPTypedFuel.lean` proves it is never exhausted. -/
+def typedFuel (ty : Ty) (b : Bytes) : Nat := tySize ty * (b.length + 2) + 1
 
 /-- `DecodeBytes(b, &v)` for `v` of shape `ty`: accept/reject and value. -/
 def decodeTy (ty : Ty) (b : Bytes) : Except Err Val :=
